@@ -17,20 +17,28 @@ def _lex_site(lc, r):
 
 
 def operator_tokens(ctx: Ctx):
+    """Comparison operator terminals = the alternatives of the non-terminal that sits between two
+    operands in a 3-symbol production (X -> t OP t with OP deriving single terminals only), plus the
+    terminals of the precedence table (boolean operators).  Independent of non-terminal names."""
     g = ctx.grammar
     ops = set()
-    for p in g.by_name("logical_op"):
-        ops.update(s for s in p.syms if s in g.terminals)
+    for p in g.prods[1:]:
+        if len(p.syms) == 3 and p.syms[0] == p.syms[2] and p.syms[1] in g.nonterminals:
+            alts = g.by_name(p.syms[1])
+            if alts and all(len(a.syms) == 1 and a.syms[0] in g.terminals for a in alts):
+                ops.update(a.syms[0] for a in alts)
     ops.update(g.precedence)
     if not ops:
-        raise AnalysisError("no operator tokens found in the grammar (logical_op productions / precedence)")
+        raise AnalysisError("no operator tokens found in the grammar (comparison non-terminal / precedence)")
     return ops
 
 
 def id_rule(ctx: Ctx):
     lc = ctx.main
     g = ctx.grammar
-    cands = [p.syms[1] for p in g.by_name("header_id") if len(p.syms) == 2]
+    # the terminal after KW_DEF in the start production's first symbol: `def <name>`
+    first = g.by_name(g.start)[0].syms[0] if g.by_name(g.start) else None
+    cands = [p.syms[1] for p in g.by_name(first) if len(p.syms) == 2 and p.syms[1] in g.terminals] if first else []
     name = cands[0] if cands else "ID"
     i = lc.index(name)
     if i < 0:
